@@ -15,8 +15,11 @@ pub enum Family {
     Blocked,
     Edge,
     PushPull,
+    TrapCluster,
+    Motif,
+    Mobility,
 }
-pub const FAMILIES: [Family; 10] = [Family::Setup, Family::Random, Family::Sparse, Family::TrapDense, Family::Goal, Family::Cage, Family::Library, Family::Blocked, Family::Edge, Family::PushPull];
+pub const FAMILIES: [Family; 13] = [Family::Setup, Family::Random, Family::Sparse, Family::TrapDense, Family::Goal, Family::Cage, Family::Library, Family::Blocked, Family::Edge, Family::PushPull, Family::TrapCluster, Family::Motif, Family::Mobility];
 impl Family {
     pub fn name(self) -> &'static str {
         match self {
@@ -30,6 +33,9 @@ impl Family {
             Family::Blocked => "blocked",
             Family::Edge => "edge",
             Family::PushPull => "push_pull",
+            Family::TrapCluster => "trap_cluster",
+            Family::Motif => "motif",
+            Family::Mobility => "mobility",
         }
     }
 }
@@ -421,6 +427,194 @@ fn push_pull_board(rng: &mut Rng) -> Board {
     b
 }
 
+/// a handful of pieces of few types (twins are likely) packed around one trap, so that the whole
+/// tree of a turn is small enough to expand exhaustively
+fn trap_cluster_board(rng: &mut Rng) -> Board {
+    let mut b = EMPTY;
+    let mut q = BTreeQuota::new();
+    let (f, r) = TRAPS[rng.below(4)];
+    let t = Sq::new(f, r);
+    let mut cells: Vec<Sq> = vec![t];
+    for df in -2i8..=2 {
+        for dr in -2i8..=2 {
+            if (df, dr) != (0, 0) && df.abs() + dr.abs() <= 2 {
+                cells.push(Sq::new((f as i8 + df) as u8, (r as i8 + dr) as u8));
+            }
+        }
+    }
+    let kinds: Vec<Kind> = (0..(2 + rng.below(2))).map(|_| KINDS[rng.weighted(&[3, 3, 3, 2, 1, 1])]).collect();
+    let n = 3 + rng.below(5);
+    for _ in 0..n {
+        let c = cells[rng.below(cells.len())];
+        if b[c.0 as usize].is_some() {
+            continue;
+        }
+        let side = if rng.chance(0.5) { Side::Gold } else { Side::Silver };
+        let k = kinds[rng.below(kinds.len())];
+        if k == Kind::R && ((side == Side::Gold && c.rank() == 8) || (side == Side::Silver && c.rank() == 1)) {
+            continue;
+        }
+        if q.take(side, k) {
+            b[c.0 as usize] = Some((side, k));
+        }
+    }
+    // a far, blocked-off rabbit per side keeps the game going without widening the turn tree much
+    for (side, sq) in [(Side::Gold, if r <= 4 { Sq::new(7 - f.min(7), 8 - 1) } else { Sq::new(7 - f.min(7), 1) }), (Side::Silver, if r <= 4 { Sq::new(f.min(7), 8) } else { Sq::new(f.min(7), 2) })] {
+        if count(&b, side, Kind::R) == 0 && b[sq.0 as usize].is_none() && q.take(side, Kind::R) {
+            let ok = !((side == Side::Gold && sq.rank() == 8) || (side == Side::Silver && sq.rank() == 1));
+            if ok {
+                b[sq.0 as usize] = Some((side, Kind::R));
+            }
+        }
+    }
+    clean_traps(&mut b);
+    b
+}
+
+/// Small crafted motifs with uniformly drawn piece types, meant to be expanded exhaustively for one
+/// turn: the conjunctions of push/pull status, traps, freezing and piece-strength pairs that random
+/// play almost never lines up.  Built around trap c3 for Gold to move and then mapped through a
+/// random symmetry (file mirror, colour swap + rank flip), so all four traps and both colours occur.
+fn motif_board(rng: &mut Rng) -> (Board, Side) {
+    let mut b = EMPTY;
+    let any = |rng: &mut Rng| KINDS[rng.below(6)];
+    let non_rabbit = |rng: &mut Rng| KINDS[1 + rng.below(5)];
+    let put = |b: &mut Board, f: u8, r: u8, s: Side, k: Kind| {
+        let sq = Sq::new(f, r);
+        if b[sq.0 as usize].is_none() {
+            b[sq.0 as usize] = Some((s, k));
+        }
+    };
+    let g = Side::Gold;
+    let sv = Side::Silver;
+    // trap c3 = (2,3); neighbours b3 (1,3), d3 (3,3), c2 (2,2), c4 (2,4)
+    match rng.below(6) {
+        0 => {
+            // own piece on the trap with one supporter; an enemy piece next to the trap with an own
+            // stronger-or-not piece beside it: stepping off the trap, then displacing the enemy into it
+            put(&mut b, 2, 3, g, non_rabbit(rng));
+            put(&mut b, 1, 3, g, any(rng));
+            put(&mut b, 2, 4, sv, any(rng));
+            let k = non_rabbit(rng);
+            if rng.chance(0.5) { put(&mut b, 2, 5, g, k) } else { put(&mut b, 3, 4, g, k) }
+            if rng.chance(0.4) { put(&mut b, 1, 4, sv, any(rng)); }
+        }
+        1 => {
+            // twins around the trap and an enemy piece that can be pushed or pulled round a 2x2 block
+            let k = non_rabbit(rng);
+            put(&mut b, 2, 3, g, k);
+            put(&mut b, 3, 3, g, if rng.chance(0.7) { k } else { non_rabbit(rng) });
+            put(&mut b, 3, 4, sv, any(rng));
+            if rng.chance(0.3) { put(&mut b, 1, 3, g, any(rng)); }
+            if rng.chance(0.3) { put(&mut b, 2, 2, sv, any(rng)); }
+        }
+        2 => {
+            // an enemy piece on the trap held by one supporter that can be pushed or pulled away
+            put(&mut b, 2, 3, sv, any(rng));
+            put(&mut b, 2, 4, sv, any(rng));
+            put(&mut b, 2, 5, g, non_rabbit(rng));
+            if rng.chance(0.5) { put(&mut b, 1, 4, g, non_rabbit(rng)); }
+            if rng.chance(0.4) { put(&mut b, 3, 3, g, any(rng)); }
+        }
+        3 => {
+            // freezing and unfreezing inside one turn: a weak own piece next to a strong enemy,
+            // a friend that can arrive or leave, an own strong piece that can push the freezer away
+            put(&mut b, 3, 4, g, any(rng));
+            put(&mut b, 4, 4, sv, non_rabbit(rng));
+            put(&mut b, 3, 5, g, any(rng));
+            put(&mut b, 5, 4, g, non_rabbit(rng));
+            if rng.chance(0.5) { put(&mut b, 4, 5, sv, any(rng)); }
+        }
+        4 => {
+            // the pusher or puller itself stands on a trap and depends on a supporter that may leave
+            put(&mut b, 2, 3, g, non_rabbit(rng));
+            put(&mut b, 2, 2, g, any(rng));
+            put(&mut b, 3, 3, sv, any(rng));
+            if rng.chance(0.5) { put(&mut b, 4, 3, sv, any(rng)); }
+            if rng.chance(0.5) { put(&mut b, 1, 3, sv, any(rng)); }
+        }
+        _ => {
+            // two enemy pieces one own piece could pull or push, one of them next to the trap
+            put(&mut b, 3, 4, g, non_rabbit(rng));
+            put(&mut b, 2, 4, sv, any(rng));
+            put(&mut b, 3, 5, sv, any(rng));
+            put(&mut b, 4, 4, sv, any(rng));
+            if rng.chance(0.5) { put(&mut b, 2, 3, g, any(rng)); put(&mut b, 2, 2, g, any(rng)); }
+        }
+    }
+    // often: something the mover can get captured on the first step, far from the motif (a
+    // rabbit next to the empty, unguarded trap f6), so that "a piece was trapped earlier this
+    // turn" combines with everything the motif offers
+    if rng.chance(0.35) {
+        match rng.below(3) {
+            0 => put(&mut b, 5, 5, g, Kind::R),          // f5 -> f6
+            1 => put(&mut b, 6, 6, g, any(rng)),         // g6 -> f6
+            _ => {
+                // an enemy piece on f6 held by one supporter the mover can pull or push away
+                put(&mut b, 5, 6, sv, any(rng));
+                put(&mut b, 5, 7, sv, Kind::R);
+                put(&mut b, 6, 7, g, non_rabbit(rng));
+            }
+        }
+    }
+    // rabbits far away keep the game alive (rabbits may also have been drawn into the motif)
+    if count(&b, g, Kind::R) == 0 { put(&mut b, 7, 1, g, Kind::R); }
+    if count(&b, sv, Kind::R) == 0 { put(&mut b, 7, 8, sv, Kind::R); }
+    // quotas: at most the legal number of each type
+    for side in [g, sv] {
+        for k in KINDS {
+            while count(&b, side, k) > k.quota() {
+                if let Some(c) = b.iter_mut().find(|c| **c == Some((side, k))) { *c = None; }
+            }
+        }
+    }
+    // a rabbit must not start on its goal rank
+    for f in 0..8u8 {
+        if b[Sq::new(f, 8).0 as usize] == Some((g, Kind::R)) { b[Sq::new(f, 8).0 as usize] = None; }
+        if b[Sq::new(f, 1).0 as usize] == Some((sv, Kind::R)) { b[Sq::new(f, 1).0 as usize] = None; }
+    }
+    let sym = rng.below(4) as u8;
+    let mut b2 = transform_board(&b, sym);
+    clean_traps(&mut b2);
+    let mover = if sym & 2 != 0 { sv } else { g };
+    // mostly the side the motif was built for, sometimes the other one
+    (b2, if rng.chance(0.85) { mover } else { mover.other() })
+}
+
+/// Positions with as many legal first steps as a seeded hill-climb can find (full or nearly full
+/// material, spread out, strong pieces next to weaker enemy pieces with room to be pushed): the
+/// long-list end of the distribution, which random positions never reach.
+fn mobility_board(rng: &mut Rng, to_move: Side) -> Board {
+    let mut b = random_board(rng, 3, true);
+    let score = |b: &Board| Model::from_position(*b, to_move, 2).legal().len();
+    let mut best = score(&b);
+    let iters = if rng.chance(0.2) { 1500 + rng.below(1500) } else { 60 + rng.below(500) };
+    for _ in 0..iters {
+        // move one piece to a random empty square (rabbits stay off their goal rank)
+        let from = Sq(rng.below(64) as u8);
+        let to = Sq(rng.below(64) as u8);
+        let pc = match b[from.0 as usize] {
+            Some(p) => p,
+            None => continue,
+        };
+        if b[to.0 as usize].is_some() || (pc.1 == Kind::R && ((pc.0 == Side::Gold && to.rank() == 8) || (pc.0 == Side::Silver && to.rank() == 1))) {
+            continue;
+        }
+        let mut c = b;
+        c[from.0 as usize] = None;
+        c[to.0 as usize] = Some(pc);
+        if !unsupported_on_traps(&c).is_empty() {
+            continue;
+        }
+        let sc = score(&c);
+        if sc >= best {
+            best = sc;
+            b = c;
+        }
+    }
+    b
+}
+
 pub const LIBRARY: &[&str] = &[
     // the smallest cage, as measured in the design phase (all-withheld state after 17 actions)
     "2g\n +-----------------+\n8|                 |\n7|                 |\n6|     x     x     |\n5| r   R           |\n4| R R             |\n3|     x     x     |\n2|                 |\n1|               E |\n +-----------------+\n   a b c d e f g h\n",
@@ -500,6 +694,9 @@ pub fn generate(rng: &mut Rng, family: Family) -> Start {
         Family::Blocked => (blocked_board(rng), side),
         Family::Edge => (edge_board(rng), side),
         Family::PushPull => (push_pull_board(rng), side),
+        Family::TrapCluster => (trap_cluster_board(rng), side),
+        Family::Motif => motif_board(rng),
+        Family::Mobility => (mobility_board(rng, side), side),
         Family::Library => {
             let text = LIBRARY[rng.below(LIBRARY.len())];
             let (b, s, _) = parse_diagram(text).expect("library diagram");
